@@ -28,6 +28,7 @@ THEOREMS = [
     "Ural.Props.C07.stems_scheme_cons",
     "Ural.Props.C07.stems_of_reparse",
     "Ural.Props.C07.stems_agree_canon_of_reparse",
+    "Ural.Props.C07.stems_agree_canon",
     "Ural.Props.C07.stems_agree_norm_of_reparse",
     "Ural.Props.C07.stems_agree_fp_of_reparse",
     "Ural.Props.C07.stems_fp_error",
@@ -79,7 +80,8 @@ ASSUMPTIONS = [
 UNPROVED = (
     "the URL-level equations (normalized_hostname_agrees, fingerprinted_hostname_agrees, bare_hostname_agrees_url) hold under per-input hypotheses about CPython's parser "
     "(same clean host in both prepared strings; accessor reads back the written host), not proved inside the model; stems_agree_* are stated _of_reparse: "
-    "urlsplit(ensure_protocol(urlunsplit t)) = t is an explicit hypothesis (ReparseOk; it fails e.g. for a rootless path without netloc, 'http:path'). "
+    "urlsplit(ensure_protocol(urlunsplit t)) = t is an explicit hypothesis (ReparseOk; it fails for hostless URLs with a scheme outside uses_netloc, 'custom:///path'); "
+    "for canonicalize_url it is discharged (stems_agree_canon: modelled parser, bracket-free netloc, non-empty canonical netloc, PunyClean decoder) with the round-trip development, for normalize_url / fingerprint_url it stays a hypothesis. "
     "Both regions are explored by the oracle on the implementation on every run. Proved without hypothesis: normHost = normalize_hostname on clean hosts, "
     "bare hostnames through the modelled parser, get_hostname_spec."
 )
@@ -411,6 +413,8 @@ def _key(case):
 
 def url_ops(case):
     lib.ural()
+    from ural import ensure_protocol
+
     u, amp, inf, ss, sa = case["url"], case["amp"], case["infer"], case["ss"], case["sa"]
     if not nc.in_model_alphabet(u) or model_lags(u):
         return []
@@ -452,7 +456,8 @@ def url_ops(case):
         s = strs[k]
         if isinstance(s, str):
             parts, sp = _parts_of_string(s)
-            add("url_stems_" + k, {"f": "c07_url_stems", "url": s, "parts": parts, "split": sp, "sa": sa})
+            add("url_stems_" + k, {"f": "c07_url_stems", "url": s, "parts": parts, "split": sp, "sa": sa,
+                                   "model_parser": parts is not None and parser_in_model(ensure_protocol(s))})
     # get_hostname
     add("get_hostname", _get_hostname_op(u))
     # helpers with the modelled parser
@@ -563,7 +568,10 @@ def url_impl(case):
             if isinstance(r, _Exc):
                 out.append([ensure_protocol(s), None, None])
             else:
-                out.append([ensure_protocol(s), list(r), drop_scheme_stem(list(r))])
+                o = [ensure_protocol(s), list(r), drop_scheme_stem(list(r))]
+                if parser_in_model(ensure_protocol(s)):
+                    o.append(list(r))
+                out.append(o)
         elif tag == "get_hostname":
             from urllib.parse import urlsplit
 
